@@ -494,4 +494,137 @@ theorem connect_round7 (draws : List Nat) (s : FairState proto7) (ownA ownB : Na
     · show Event.ready ∈ a2.events
       rw [a2ev]; simp
 
+/-! ## the round that takes the connector from `Token` to `Connecting` -/
+
+/-- `a` has asked for a token, `b` is unconnected or has answered before: after one round `a` is
+connecting with `b`'s token, `b` waits for the `Connect`, which is `a`'s one undelivered datagram -/
+theorem token_round7 (draws : List Nat) (nt : Nat) (hnt : tokenRandom draws = some nt) (w : World proto7)
+    (ownA : Nat) (hA : ownA ≠ TOKEN_NONE) (hW : WInv proto7 core Conn7.cfg w) (hT : TInv Timed w)
+    (sa : Timeout) (ha : w.a.conn = ⟨.token ownA, sa⟩)
+    (hb : (∃ sb, w.b.conn = ⟨.unconnected, sb⟩) ∨
+      (∃ ownB sb, w.b.conn = ⟨.pendingConnect ownB, sb⟩ ∧ ownB ≠ TOKEN_NONE)) :
+    ∃ (s1 : FairState proto7) (ownB : Nat) (sa' : Timeout) (pre : List (Sent proto7.Packet)) (d : Nat),
+      fairRoundT draws () (FairState.start w) = some s1 ∧ WInv proto7 core Conn7.cfg s1.w ∧ TInv Timed s1.w ∧
+      s1.w.a.conn = ⟨.connecting ownA ownB, sa'⟩ ∧ (∃ sb, s1.w.b.conn = ⟨.pendingConnect ownB, sb⟩) ∧
+      s1.cb = s1.w.b.out.length ∧
+      s1.w.a.out = pre ++ [⟨.control 0 ownB (.connect ownA), s1.w.a.nAbs, d⟩] ∧ pre.length = s1.ca ∧
+      s1.w.b.nAbs ≤ d + 512 ∧ s1.w.a.events = w.a.events := by
+  -- the two shapes of `b` behave alike
+  obtain ⟨X, ownB, sb, hbX, htick, hrecv⟩ : ∃ (X : State) (ownB : Nat) (sb : Timeout), w.b.conn = ⟨X, sb⟩ ∧
+      (∀ now s, ∃ s', P7.call now [] ⟨X, s⟩ .tick = .ok { conn := ⟨X, s'⟩, sent := [] }) ∧
+      (∀ now s, P7.recv now draws ⟨X, s⟩ (.control 0 TOKEN_NONE (.token ownA)) () =
+        .ok { conn := ⟨.pendingConnect ownB, s⟩, sent := [.control 0 ownA (.token ownB)] }) ∧ ownB ≠ TOKEN_NONE := by
+    rcases hb with ⟨sb, h⟩ | ⟨ownB, sb, h, hne⟩
+    · exact ⟨.unconnected, nt, sb, h, fun now s => tick_unconnected now s,
+        fun now s => recv_unc_token now draws s ownA nt hnt, tokenRandom_ne hnt⟩
+    · exact ⟨.pendingConnect ownB, ownB, sb, h, fun now s => tick_pc now ownB s,
+        fun now s => recv_pc_token now draws s ownA ownB hne, hne⟩
+  obtain ⟨hrecv, hBne⟩ := hrecv
+  obtain ⟨T1, hT1⟩ : ∃ T1, T1 = w.now + resendUs := ⟨_, rfl⟩
+  obtain ⟨T2, hT2⟩ : ∃ T2, T2 = T1 + sendUs := ⟨_, rfl⟩
+  have hsa : SendDue w.now sa := by have := hT.1; rw [ha] at this; exact this
+  have t1 : sa.triggered T1 = true := by
+    apply hsa.triggered; rw [hT1, sendUs_val, resendUs_val]; omega
+  have t2 : (Timeout.after T1 sendUs).triggered T2 = true := by
+    simp [Timeout.after, Timeout.triggered, hT2]
+  have ea1 : proto7.call T1 [] w.a.conn .tick =
+      .ok (tickRet (⟨.token ownA, Timeout.after T1 sendUs⟩ : Conn) [.control 0 TOKEN_NONE (.token ownA)]) := by
+    rw [ha]; exact tick_token T1 ownA sa t1 hA
+  have ea2 : proto7.call T2 [] (⟨.token ownA, Timeout.after T1 sendUs⟩ : Conn) .tick =
+      .ok (tickRet (⟨.token ownA, Timeout.after T2 sendUs⟩ : Conn) [.control 0 TOKEN_NONE (.token ownA)]) :=
+    tick_token T2 ownA _ t2 hA
+  have hwinv : AInv Conn7.cfg (absEnd proto7 core w.a) (absEnd proto7 core w.b) := hW
+  have hwin_ba : w.b.nAbs ≤ w.a.dAbs + 512 := hwinv.2.win
+  have hwin_ab : w.a.nAbs ≤ w.b.dAbs + 512 := hwinv.1.win
+  obtain ⟨sb1, eb1'⟩ := htick T1 sb
+  obtain ⟨sb2, eb2'⟩ := htick T2 sb1
+  have eb1 : proto7.call T1 [] w.b.conn .tick = .ok (tickRet (⟨X, sb1⟩ : Conn) []) := by
+    rw [hbX]; exact eb1'
+  have eb2 : proto7.call T2 [] (⟨X, sb1⟩ : Conn) .tick = .ok (tickRet (⟨X, sb2⟩ : Conn) []) := eb2'
+  have hrun := run_tickMoves' w T1 T2 hT1 hT2 _ _ _ _ _ _ _ _ ea1 eb1 ea2 eb2
+  generalize hw1 : ({ a := (w.a.book (tickRet (⟨.token ownA, Timeout.after T1 sendUs⟩ : Conn) [.control 0 TOKEN_NONE (.token ownA)]) []).book
+                          (tickRet (⟨.token ownA, Timeout.after T2 sendUs⟩ : Conn) [.control 0 TOKEN_NONE (.token ownA)]) []
+                      b := (w.b.book (tickRet (⟨X, sb1⟩ : Conn) []) []).book (tickRet (⟨X, sb2⟩ : Conn) []) []
+                      now := T2 } : World proto7) = w1 at hrun
+  have a1conn : w1.a.conn = ⟨.token ownA, Timeout.after T2 sendUs⟩ := by rw [← hw1]; rfl
+  have b1conn : w1.b.conn = ⟨X, sb2⟩ := by rw [← hw1]; rfl
+  have a1out : w1.a.out = w.a.out ++ [⟨.control 0 TOKEN_NONE (.token ownA), w.a.nAbs, w.a.dAbs⟩,
+      ⟨.control 0 TOKEN_NONE (.token ownA), w.a.nAbs, w.a.dAbs⟩] := by
+    rw [← hw1]; simp [End.book, tickRet, End.nAbs, End.dAbs, End.submittedVital, End.deliveredVital]; rfl
+  have b1out : w1.b.out = w.b.out := by rw [← hw1]; simp [End.book, tickRet]
+  have a1sub : w1.a.submitted = w.a.submitted := by rw [← hw1]; simp [End.book, tickRet]
+  have b1sub : w1.b.submitted = w.b.submitted := by rw [← hw1]; simp [End.book, tickRet]
+  have a1ev : w1.a.events = w.a.events := by rw [← hw1]; simp [End.book, tickRet]
+  have b1ev : w1.b.events = w.b.events := by rw [← hw1]; simp [End.book, tickRet]
+  have nAa := nAbs_of_submitted a1sub
+  have nAb := nAbs_of_submitted b1sub
+  have dAa := dAbs_of_events a1ev
+  have dAb := dAbs_of_events b1ev
+  -- block 1: the two requests are answered
+  have hr1 : proto7.recv w1.now draws w1.b.conn (.control 0 TOKEN_NONE (.token ownA)) () =
+      .ok { conn := ⟨.pendingConnect ownB, sb2⟩, sent := [.control 0 ownA (.token ownB)] } := by
+    rw [b1conn]; exact hrecv w1.now sb2
+  have hr2 : proto7.recv w1.now draws (⟨.pendingConnect ownB, sb2⟩ : Conn) (.control 0 TOKEN_NONE (.token ownA)) () =
+      .ok { conn := ⟨.pendingConnect ownB, sb2⟩, sent := [.control 0 ownA (.token ownB)] } :=
+    recv_pc_token w1.now draws sb2 ownA ownB hBne
+  generalize hb2 : (End.book (End.book w1.b
+      ({ conn := (⟨.pendingConnect ownB, sb2⟩ : Conn), sent := [.control 0 ownA (.token ownB)] } :
+        Ret proto7.Conn proto7.Packet) [])
+      ({ conn := (⟨.pendingConnect ownB, sb2⟩ : Conn), sent := [.control 0 ownA (.token ownB)] } :
+        Ret proto7.Conn proto7.Packet) [] : End proto7) = b2
+  have hB : recvEndsD w1.now draws () w1.b
+      ([(⟨.control 0 TOKEN_NONE (.token ownA), w.a.nAbs, w.a.dAbs⟩ : Sent proto7.Packet),
+        ⟨.control 0 TOKEN_NONE (.token ownA), w.a.nAbs, w.a.dAbs⟩].map (·.pkt)) = some b2 := by
+    simp only [List.map_cons, List.map_nil, recvEndsD, recvEndD, hr1]
+    simp only [End.book]
+    rw [hr2]
+    exact congrArg some hb2
+  have b2conn : b2.conn = ⟨.pendingConnect ownB, sb2⟩ := by rw [← hb2]; rfl
+  have b2out : b2.out = w.b.out ++ [⟨.control 0 ownA (.token ownB), w.b.nAbs, w.b.dAbs⟩,
+      ⟨.control 0 ownA (.token ownB), w.b.nAbs, w.b.dAbs⟩] := by
+    rw [← hb2]
+    simp [End.book, b1out, End.nAbs, End.dAbs, End.submittedVital, End.deliveredVital, b1sub, b1ev]
+    rfl
+  have b2sub : b2.submitted = w1.b.submitted := by rw [← hb2]; simp [End.book]
+  -- block 2: the first answer takes `a` to `Connecting`
+  have hr3 : proto7.recv w1.now draws w1.a.conn (.control 0 ownA (.token ownB)) () =
+      .ok { conn := ⟨.connecting ownA ownB, Timeout.after w1.now sendUs⟩, sent := [.control 0 ownB (.connect ownA)] } := by
+    rw [a1conn]; exact recv_tok_token w1.now draws _ ownA ownB hA
+  have hr4 : proto7.recv w1.now draws (⟨.connecting ownA ownB, Timeout.after w1.now sendUs⟩ : Conn)
+      (.control 0 ownA (.token ownB)) () = .ok { conn := ⟨.connecting ownA ownB, Timeout.after w1.now sendUs⟩ } :=
+    recv_cng_token w1.now draws _ ownA ownB ownB
+  generalize ha2 : (End.book (End.book w1.a
+      ({ conn := (⟨.connecting ownA ownB, Timeout.after w1.now sendUs⟩ : Conn), sent := [.control 0 ownB (.connect ownA)] } :
+        Ret proto7.Conn proto7.Packet) [])
+      ({ conn := (⟨.connecting ownA ownB, Timeout.after w1.now sendUs⟩ : Conn) } : Ret proto7.Conn proto7.Packet) [] :
+        End proto7) = a2
+  have hAr : recvEndsD w1.now draws () w1.a
+      ([(⟨.control 0 ownA (.token ownB), w.b.nAbs, w.b.dAbs⟩ : Sent proto7.Packet),
+        ⟨.control 0 ownA (.token ownB), w.b.nAbs, w.b.dAbs⟩].map (·.pkt)) = some a2 := by
+    simp only [List.map_cons, List.map_nil, recvEndsD, recvEndD, hr3]
+    simp only [End.book]
+    rw [hr4]
+    exact congrArg some ha2
+  obtain ⟨hround, hA3, hS3, hS2, a2sub, _, _, _⟩ := fairRoundT_of sim7 loct7 draws () (s := FairState.start w) hW hT hrun
+    (prea := w.a.out) (Lb := [(⟨.control 0 TOKEN_NONE (.token ownA), w.a.nAbs, w.a.dAbs⟩ : Sent proto7.Packet),
+      ⟨.control 0 TOKEN_NONE (.token ownA), w.a.nAbs, w.a.dAbs⟩])
+    a1out rfl
+    (by intro sn hsn; simp at hsn; subst hsn; exact ⟨nAa.symm, by rw [nAb]; exact hwin_ba⟩)
+    hB (preb := w.b.out) (La := [⟨.control 0 ownA (.token ownB), w.b.nAbs, w.b.dAbs⟩,
+      ⟨.control 0 ownA (.token ownB), w.b.nAbs, w.b.dAbs⟩]) b2out rfl
+    (by
+      intro sn hsn; simp at hsn; subst hsn
+      exact ⟨by rw [nAbs_of_submitted b2sub, nAb], by rw [nAa]; exact hwin_ab⟩)
+    hAr
+  have a2conn : a2.conn = ⟨.connecting ownA ownB, Timeout.after w1.now sendUs⟩ := by rw [← ha2]; rfl
+  have a2out : a2.out = w1.a.out ++ [⟨.control 0 ownB (.connect ownA), w1.a.nAbs, w1.a.dAbs⟩] := by
+    rw [← ha2]; simp [End.book]
+    exact ⟨_, rfl, rfl⟩
+  have a2ev : a2.events = w.a.events := by rw [← ha2]; simp [End.book, a1ev]
+  refine ⟨_, ownB, _, w1.a.out, w1.a.dAbs, hround, hA3, ⟨hS3, hS2⟩, a2conn, ⟨_, b2conn⟩, rfl, ?_, rfl, ?_, a2ev⟩
+  · show a2.out = w1.a.out ++ [⟨.control 0 ownB (.connect ownA), a2.nAbs, w1.a.dAbs⟩]
+    rw [a2out, nAbs_of_submitted a2sub]
+  · show b2.nAbs ≤ w1.a.dAbs + 512
+    rw [nAbs_of_submitted b2sub, nAb, dAa]; exact hwin_ba
+
 end Tw.NetSim.P7
